@@ -33,6 +33,12 @@ impl Walk {
         self.owner.insert(cid, self.ctx.clone());
         vis.insert(cid);
     }
+    /// identity of "an id of another pipeline is used here": where it is used, in which kind of pipeline,
+    /// and which kind of pipeline defines it
+    fn foreign_key(&self, owner: &str, what: &str) -> String {
+        let kind = |c: &str| if c.starts_with("table") { "table" } else { "main" };
+        format!("cid-of-another-pipeline-used:{what}:in-{}:defined-in-{}", kind(&self.ctx), kind(owner))
+    }
     fn cid(v: &J) -> Option<i64> {
         v.as_i64()
     }
@@ -46,11 +52,11 @@ impl Walk {
                 Some(c) if vis.contains(&c) => {}
                 Some(c) => {
                     let key = match self.owner_known.get(&c) {
-                        None => "cid-undefined",
-                        Some(o) if *o != self.ctx => "cid-of-another-pipeline-used",
-                        Some(_) => "cid-not-visible",
+                        None => "cid-undefined".to_string(),
+                        Some(o) if *o != self.ctx => self.foreign_key(o, what),
+                        Some(_) => "cid-not-visible".to_string(),
                     };
-                    self.err(key, format!("column id {c} used in {what} is not visible there"))
+                    self.err(&key, format!("column id {c} used in {what} is not visible there"))
                 }
                 None => self.err("malformed-expr", format!("ColumnRef {c}")),
             }
@@ -82,12 +88,12 @@ impl Walk {
                 // the one recorded finding: the sort carried into a Take names a column that an
                 // intervening Select dropped (defined in this pipeline, no longer visible)
                 let key = match self.owner_known.get(&c) {
-                    None => "cid-undefined",
-                    Some(o) if *o != self.ctx => "cid-of-another-pipeline-used",
-                    Some(_) if what == "Take.sort" => "take-sort-id-cut-off-by-select",
-                    Some(_) => "cid-not-visible",
+                    None => "cid-undefined".to_string(),
+                    Some(o) if *o != self.ctx => self.foreign_key(o, what),
+                    Some(_) if what == "Take.sort" => "take-sort-id-cut-off-by-select".to_string(),
+                    Some(_) => "cid-not-visible".to_string(),
                 };
-                self.err(key, format!("column id {c} used in {what} is not visible there"))
+                self.err(&key, format!("column id {c} used in {what} is not visible there"))
             }
             None => self.err("malformed", format!("not a column id in {what}: {c}")),
         }
@@ -231,7 +237,25 @@ impl Walk {
 /// Check one RQ given as JSON; returns (key, message) per violated clause.
 pub fn check_rq(rq: &J) -> Vec<(String, String)> {
     let first = walk_rq(rq, BTreeMap::new());
-    walk_rq(rq, first.owner).errs
+    let mut errs = walk_rq(rq, first.owner).errs;
+    // cause predicate of a recorded finding: a declared table whose column list holds the same column twice
+    // (`from u | join l=q (..)` with an `a` on both sides). Instantiating it drops the duplicate, and the ids
+    // of the enclosing pipeline are redirected to the wrong / to no instance column.
+    let dup_table = rq["tables"].as_array().map(|ts| {
+        ts.iter().any(|t| {
+            let cols: Vec<String> = t["relation"]["columns"].as_array().map(|a| a.iter().map(|c| c.to_string()).collect()).unwrap_or_default();
+            let set: BTreeSet<&String> = cols.iter().collect();
+            set.len() != cols.len()
+        })
+    });
+    if dup_table == Some(true) {
+        for (k, _) in errs.iter_mut() {
+            if k.starts_with("cid-of-another-pipeline-used") {
+                *k = "foreign-cid-after-instantiating-table-with-duplicate-column-names".into();
+            }
+        }
+    }
+    errs
 }
 
 fn walk_rq(rq: &J, owner_known: BTreeMap<i64, String>) -> Walk {
